@@ -1558,10 +1558,17 @@ func specHostAt(hm *HostMap, a netip.Addr, m int) *HostInfo {
 // hostmap's relay index table, and its own index is gone (pointwise in an
 // arbitrary index k).
 //@ func removeHostInfo
-//@   trusted removes the first occurrence of hi from the list (slices.Index / slices.Delete)
+//@   trusted removes the first occurrence of hi from the list (slices.Index / slices.Delete): at most one entry shorter, and a list without nil entries stays without nil entries
+//@   ensures len(result) <= len(list) && len(result) >= len(list)-1 && implies(forall(func(q int) bool { return implies(0 <= q && q < len(list), old(list[q]) != nil) }), forall(func(q int) bool { return implies(0 <= q && q < len(result), result[q] != nil) }))
 //@   assigns elems(list)
 //@ func (*HostMap).unlockedSetHostsForAddr
-//@   trusted installs the list as the tunnels of this address (primary first) or removes the address
+//@   props C28
+//@   ghost ka netip.Addr
+//@   requires hm != nil && hm.Hosts != nil && hm.moreHosts != nil
+//@   ensures[empty]   implies(len(list) == 0, !has(hm.Hosts, addr) && !has(hm.moreHosts, addr))
+//@   ensures[primary] implies(len(list) >= 1, has(hm.Hosts, addr) && hm.Hosts[addr] == old(list[0]))
+//@   ensures[more]    implies(len(list) > 1, has(hm.moreHosts, addr) && same(hm.moreHosts[addr], list)) && implies(len(list) == 1, !has(hm.moreHosts, addr))
+//@   ensures[others]  implies(ka != addr, has(hm.Hosts, ka) == old(has(hm.Hosts, ka)) && hm.Hosts[ka] == old(hm.Hosts[ka]) && has(hm.moreHosts, ka) == old(has(hm.moreHosts, ka)) && same(hm.moreHosts[ka], old(hm.moreHosts[ka])))
 //@   assigns mapof(hm.Hosts), mapof(hm.moreHosts)
 //@ func (*HostMap).unlockedDisestablishVpnAddrRelayFor
 //@   trusted marks the relay entries that other tunnels hold for this peer as disestablished (state of existing entries only: no index is added or removed)
@@ -1573,13 +1580,19 @@ func specHostAt(hm *HostMap, a netip.Addr, m int) *HostInfo {
 //@   assigns nothing
 
 //@ func (*HostMap).unlockedDeleteHostInfo
-//@   props C39
+//@   props C39 C28
 //@   ghost k uint32
-//@   requires hm != nil && hostinfo != nil && hm.l != nil
+//@   effect evicted
+//@   requires hm != nil && hostinfo != nil && hm.l != nil && hm.Hosts != nil && hm.moreHosts != nil
+//@   callghost unlockedSetHostsForAddr ka = addr
+//@   old rid = hostinfo.remoteIndexId
+//@   old ridMine = has(hm.RemoteIndexes, hostinfo.remoteIndexId) && hm.RemoteIndexes[hostinfo.remoteIndexId] == hostinfo
+//@   ensures[remote] implies(ridMine, !has(hm.RemoteIndexes, rid))
+//@   ensures[maps]   hm.Hosts != nil && hm.moreHosts != nil && implies(old(hm.Indexes) != nil, hm.Indexes != nil) && implies(old(hm.RemoteIndexes) != nil, hm.RemoteIndexes != nil)
 //@   requires[distinct] !same(hm.Relays, hm.Indexes) && !same(hm.Relays, hm.RemoteIndexes) && !same(hm.Indexes, hm.RemoteIndexes)
 //@   ensures[relays] implies(old(has(hostinfo.relayState.relayForByIdx, k)), !has(hm.Relays, k))
 //@   ensures[index]  !has(hm.Indexes, old(hostinfo.localIndexId))
-//@   loop 1 invariant same(hm.Indexes, old(hm.Indexes)) && same(hm.Relays, old(hm.Relays)) && same(hm.RemoteIndexes, old(hm.RemoteIndexes)) && same(hostinfo.relayState.relayForByIdx, old(hostinfo.relayState.relayForByIdx)) && hostinfo.localIndexId == old(hostinfo.localIndexId) && hostinfo.remoteIndexId == old(hostinfo.remoteIndexId) && hm.l == old(hm.l)
+//@   loop 1 invariant hm.Hosts != nil && hm.moreHosts != nil && same(hm.Indexes, old(hm.Indexes)) && same(hm.Relays, old(hm.Relays)) && same(hm.RemoteIndexes, old(hm.RemoteIndexes)) && same(hostinfo.relayState.relayForByIdx, old(hostinfo.relayState.relayForByIdx)) && hostinfo.localIndexId == old(hostinfo.localIndexId) && hostinfo.remoteIndexId == old(hostinfo.remoteIndexId) && hm.l == old(hm.l)
 //@   loop 2 invariant forall(func(j int) bool { return implies(0 <= j && j < rangeindex, !has(hm.Relays, rangeslice[j])) })
 //@   loop 2 assigns mapof(hm.Relays)
 
@@ -2727,3 +2740,66 @@ func specRemotePfx(p firewall.Packet) netip.Prefix {
 //@   loop 1 invariant[v6match]   implies(d6 == 0 && !rules6.firstValue, rules6.allValuesMatch == (t6 == 0 || f6 == 0))
 //@   loop 1 invariant[v6value]   implies(d6 == 0 && !rules6.firstValue && rules6.allValuesMatch, rules6.allValues == (t6 > 0))
 //@   loop 1 invariant[tree] tree != nil
+
+// =====================================================================
+// C28 — hostmap indexes stay consistent (per-operation contracts)
+// =====================================================================
+//
+// unlockedSetHostsForAddr (contract above, with C39) installs a list of
+// tunnels for one address: the first tunnel becomes the primary, a list of two
+// or more is also kept as the address's list, an empty list removes the
+// address from both maps; no other address is touched (pointwise in an
+// arbitrary address). unlockedDeleteHostInfo erases the tunnel's own index, its
+// relay indexes and — if it still points at this tunnel — its remote index.
+// unlockedMakePrimary promotes only a tunnel that is still registered under
+// its own index (a removed tunnel is never re-inserted), and then the tunnel
+// is the primary of every one of its addresses. unlockedInnerAddHostInfo makes
+// the new tunnel the primary of the address (it heads the list handed to
+// unlockedSetHostsForAddr) and retires a tunnel only when the list has grown
+// beyond MaxHostInfosPerVpnIp, and then the last (oldest) entry.
+// unlockedAddHostInfo registers the tunnel under its local and remote index.
+
+//@ func (*HostMap).unlockedMakePrimary impl
+//@   props C28
+//@   ghost j int
+//@   requires hm != nil && hostinfo != nil && hm.Hosts != nil && hm.moreHosts != nil
+//@   old live = has(hm.Indexes, hostinfo.localIndexId) && hm.Indexes[hostinfo.localIndexId] == hostinfo
+//@   callghost unlockedSetHostsForAddr ka = hostinfo.vpnAddrs[j]
+//@   callrequires unlockedSetHostsForAddr len(arg2) >= 1 && arg2[0] == hostinfo && arg1 == addr
+//@   ensures[live]    result == live
+//@   ensures[primary] implies(result && 0 <= j && j < len(hostinfo.vpnAddrs), has(hm.Hosts, hostinfo.vpnAddrs[j]) && hm.Hosts[hostinfo.vpnAddrs[j]] == hostinfo)
+//@   loop 1 invariant implies(0 <= j && j < rangeindex, has(hm.Hosts, hostinfo.vpnAddrs[j]) && hm.Hosts[hostinfo.vpnAddrs[j]] == hostinfo) && hm.Hosts != nil && hm.moreHosts != nil && same(rangeslice, hostinfo.vpnAddrs) && same(hm.Hosts, old(hm.Hosts)) && same(hm.moreHosts, old(hm.moreHosts))
+
+//@ func (*HostMap).unlockedInnerAddHostInfo
+//@   trusted caller's view: changes the address maps and, when it retires the oldest tunnel, the index maps; the hostmap keeps its maps
+//@   assumedframe the tunnels' own lists (slices held in moreHosts) and a drained map's replacement cannot be named in a frame
+//@   requires hm != nil && hostinfo != nil && hm.Hosts != nil && hm.moreHosts != nil && hm.Indexes != nil && hm.RemoteIndexes != nil && hm.l != nil
+//@   ensures hm.Hosts != nil && hm.moreHosts != nil && hm.Indexes != nil && hm.RemoteIndexes != nil
+//@   assigns hm.Hosts, hm.moreHosts, hm.Indexes, hm.RemoteIndexes, mapof(hm.Hosts), mapof(hm.moreHosts), mapof(hm.Indexes), mapof(hm.RemoteIndexes), mapof(hm.Relays)
+//@ func (*HostMap).unlockedInnerAddHostInfo impl
+//@   props C28
+//@   ghost ka netip.Addr
+//@   ghost evicted int = 0
+//@   requires hm != nil && hostinfo != nil && hm.Hosts != nil && hm.moreHosts != nil && hm.l != nil
+//@   requires[distinct] !same(hm.Relays, hm.Indexes) && !same(hm.Relays, hm.RemoteIndexes) && !same(hm.Indexes, hm.RemoteIndexes)
+//@   callassumes removeHostInfo forall(func(q int) bool { return implies(0 <= q && q < len(ret0), ret0[q] != nil) })
+//@   callghost unlockedDeleteHostInfo k = uint32(0)
+//@   callrequires unlockedSetHostsForAddr arg1 == vpnAddr && len(arg2) >= 1 && arg2[0] == hostinfo
+//@   callrequires unlockedDeleteHostInfo len(list) > MaxHostInfosPerVpnIp && arg1 == list[len(list)-1] && arg1 != nil
+//@   ensures[primary] implies(evicted == 0, has(hm.Hosts, vpnAddr) && hm.Hosts[vpnAddr] == hostinfo)
+//@   ensures[others]  implies(evicted == 0 && ka != vpnAddr, has(hm.Hosts, ka) == old(has(hm.Hosts, ka)) && hm.Hosts[ka] == old(hm.Hosts[ka]))
+//@   ensures[cap]     evicted <= 1
+
+//@ func (*dnsServer).Add
+//@   trusted records the peer's certificate name for the DNS responder (C44)
+//@   assigns nothing
+
+//@ func (*HostMap).unlockedAddHostInfo impl
+//@   props C28
+//@   requires hm != nil && hostinfo != nil && f != nil && hm.l != nil && hm.Hosts != nil && hm.moreHosts != nil && hm.Indexes != nil && hm.RemoteIndexes != nil
+//@   requires implies(f.dnsServer != nil, hostinfo.ConnectionState != nil && hostinfo.ConnectionState.peerCert != nil && hostinfo.ConnectionState.peerCert.Certificate != nil)
+//@   requires implies(f.connectionManager != nil, f.connectionManager.trafficTimer != nil)
+//@   callrequires unlockedInnerAddHostInfo arg1 == addr && arg2 == hostinfo && arg3 == f
+//@   ensures[local]  hm.Indexes != nil && has(hm.Indexes, hostinfo.localIndexId) && hm.Indexes[hostinfo.localIndexId] == hostinfo
+//@   ensures[remote] hm.RemoteIndexes != nil && has(hm.RemoteIndexes, hostinfo.remoteIndexId) && hm.RemoteIndexes[hostinfo.remoteIndexId] == hostinfo
+//@   loop 1 invariant hm.Hosts != nil && hm.moreHosts != nil && hm.Indexes != nil && hm.RemoteIndexes != nil && hm.l != nil
